@@ -184,6 +184,66 @@ example : commonBlockdim [[5, 2], [4, 3]] = some [4, 1, 2] ∧ refines [4, 1, 2]
   decide
 example : commonBlockdim [[2, 2], [3, 2]] = none := by decide
 
+/-! ## 2a. `broadcast_shapes` is NumPy's broadcasting rule -/
+
+theorem exists_len_gt (shapes : List (List Nat)) (m0 i : Nat) (h : i < shapes.foldl (fun m s => max m s.length) m0) :
+    i < m0 ∨ ∃ s ∈ shapes, i < s.length := by
+  induction shapes generalizing m0 with
+  | nil => left; simpa using h
+  | cons s r ih =>
+    simp only [List.foldl_cons] at h
+    rcases ih (max m0 s.length) h with h1 | ⟨t, ht, hlt⟩
+    · by_cases hm : i < m0
+      · exact Or.inl hm
+      · right; exact ⟨s, by simp, by omega⟩
+    · right; exact ⟨t, by simp [ht], hlt⟩
+
+theorem column_facts (shapes : List (List Nat)) (i : Nat) (hi : i < maxLen shapes) :
+    (∀ x ∈ column shapes i, -1 ≤ x) ∧ ∃ x ∈ column shapes i, x ≠ -1 := by
+  constructor
+  · intro x hx
+    unfold column at hx
+    obtain ⟨s, _, rfl⟩ := List.mem_map.mp hx
+    cases s.reverse[i]? with
+    | none => simp
+    | some v => simp
+  · unfold maxLen at hi
+    rcases exists_len_gt shapes 0 i hi with h | ⟨s, hs, hlt⟩
+    · omega
+    · refine ⟨((s.reverse[i]?).map Int.ofNat).getD (-1), ?_, ?_⟩
+      · unfold column
+        exact List.mem_map.mpr ⟨s, hs, rfl⟩
+      · have : i < s.reverse.length := by simpa using hlt
+        rw [List.getElem?_eq_getElem this]
+        simp
+
+/-- **broadcastShapes_eq_np.** For any number of shapes other than one (a single shape is returned unchanged by both),
+    dask's `broadcast_shapes` — `zip_longest(..., fillvalue=-1)`, `dim = 0 if 0 in sizes else max`, reject sizes outside
+    `[-1, 0, 1, dim]` — accepts exactly the shape lists NumPy's right-aligned broadcasting rule accepts and returns the
+    same shape (zero-length dimensions included). -/
+theorem broadcastShapes_eq_np (shapes : List (List Nat)) (h : shapes.length ≠ 1) :
+    broadcastShapes shapes = npBroadcast shapes := by
+  have hgen : (optAll ((List.range (maxLen shapes)).map fun i => bdim (column shapes i))) =
+      (optAll ((List.range (maxLen shapes)).map fun i => npdim (column shapes i))) := by
+    congr 1
+    apply List.map_congr_left
+    intro i hi
+    have := column_facts shapes i (List.mem_range.mp hi)
+    exact bdim_eq_npdim _ this.1 this.2
+  unfold npBroadcast
+  rw [← hgen]
+  match shapes, h with
+  | [], _ => rfl
+  | [s], h => simp at h
+  | s :: t :: r, _ => rfl
+
+theorem broadcastShapes_single (s : List Nat) : broadcastShapes [s] = some s := rfl
+
+/-- non-vacuity -/
+example : broadcastShapes [[0, 1], [3]] = some [0, 3] ∧ broadcastShapes [[2], [3]] = none ∧
+    broadcastShapes [[3, 1], [4]] = some [3, 4] ∧ broadcastShapes [[0], [1]] = some [0] ∧ broadcastShapes [[0], [3]] = none := by
+  decide
+
 /-! ## 2b. the ufunc table (extracted from dask/array/ufunc.py on every run) -/
 
 /-- the only dask ufunc names that wrap a NumPy function of a different name -/
